@@ -100,17 +100,26 @@ func runC06(c c06Case, rec *ev.Rec) error {
 	var trace []string
 	parked := make(chan string)
 	resume := make(chan struct{})
+	done := make(chan struct{})
 	active := false
 	verifhook.Set(func(site string) {
 		if !active {
 			return
 		}
 		if strings.HasPrefix(site, "db.") || strings.HasPrefix(site, "head.truncate") || strings.HasPrefix(site, "compact.write") {
-			parked <- site
-			<-resume
+			select {
+			case parked <- site:
+			case <-done: // the case is over: nobody schedules any more, never block the database
+				return
+			}
+			select {
+			case <-resume:
+			case <-done:
+			}
 		}
 	})
 	defer verifhook.Set(nil)
+	defer close(done)
 	queriers := map[int]*c06Querier{}
 	closeAll := func() {
 		for _, q := range queriers {
